@@ -233,3 +233,91 @@ def check_rh_semantics(ctx, led, v, rule="C12.sem"):
     else:
         led.ok(rule, "%s::outcome" % ck, where, "%d representative strings: accepted / rejected with the class the property states" % n)
     return n
+
+
+def table_is_read(func, table_src):
+    """Is the container named by `table_src` (e.g. 'cls._rh_checked') loaded in `func` other than
+    as the target of a subscript store?  (The name of the last attribute / the bare name decides.)"""
+    import ast
+
+    last = table_src.split(".")[-1].split("[")[0]
+    store_targets = set()
+    for n in ast.walk(func.node):
+        if isinstance(n, (ast.Assign, ast.AugAssign)):
+            tg = n.targets if isinstance(n, ast.Assign) else [n.target]
+            for t in tg:
+                if isinstance(t, ast.Subscript):
+                    store_targets.add(id(t.value))
+    for n in ast.walk(func.node):
+        if id(n) in store_targets:
+            continue
+        if isinstance(n, ast.Attribute) and n.attr == last and isinstance(n.ctx, ast.Load):
+            # obj.table.setdefault(...) alone is a store as well, any other use reads
+            return True
+        if isinstance(n, ast.Name) and n.id == last and isinstance(n.ctx, ast.Load):
+            return True
+    return False
+
+
+def check_rh_history(ctx, led, v, rule="C12.sem.history"):
+    """from_rh_vector must decide every string on its own: when it keeps results in state that
+    outlives the call (a class- or module-level table) and consults that state, the key under which
+    a result is kept has to determine the outcome the property states.  Decided on the value graph:
+    for the representative strings that reach the store, every other representative string with the
+    same key value must have the same required outcome."""
+    rs = RHSemantics(ctx, v)
+    info = VERSIONS[v]
+    ck = "%s.from_rh_vector" % info["cls"]
+    expected = dict(rs.inputs)
+    n = 0
+    for e in rs.events:
+        if e.kind != "global_write" or "key" not in e.data:
+            continue
+        n += 1
+        table = e.data.get("table") or "?"
+        if not table_is_read(rs.f, table):
+            continue  # written, never consulted here: C19's matter
+        key = e.data["key"]
+        writers = list((e.data.get("dom") or {}).get("rh") or rs.strings)
+
+        def key_at(s):
+            try:
+                x = value_at({"rh": s}, key) if isinstance(key, Term) else key
+            except Exception:
+                return None
+            return x.v if isinstance(x, Const) else x
+
+        by_key = {}
+        for s in rs.strings:
+            k = key_at(s)
+            if k is not None:
+                try:
+                    by_key.setdefault(k, []).append(s)
+                except TypeError:
+                    pass
+        bad = None
+        for s1 in writers:
+            k = key_at(s1)
+            try:
+                same = by_key.get(k, [])
+            except TypeError:
+                same = []
+            for s2 in same:
+                if s2 != s1 and expected.get(s2) != expected.get(s1):
+                    bad = (s1, s2, k)
+                    break
+            if bad:
+                break
+        if bad:
+            s1, s2, k = bad
+            led.violation(
+                rule,
+                "%s::%s" % (ck, table),
+                e.where(),
+                "from_rh_vector keeps its result in %s under the key %r and consults that table: after from_rh_vector(%r) "
+                "the call from_rh_vector(%r) finds the entry although the property requires %s for it (and %s for the first): "
+                "the outcome depends on what was parsed earlier" % (table, k, s1, s2, expected.get(s2), expected.get(s1)),
+            )
+        else:
+            led.ok(rule, "%s::%s" % (ck, table), e.where(), "the key determines the required outcome on all representative strings")
+    return n
